@@ -564,6 +564,9 @@ func catch(f func()) (p any, panicked bool) {
 // lists, typed-slice origin). BuildVariant picks a route per list node from a
 // seed, so a case only has to carry one integer.
 
+// numListRoutes is the number of construction routes listByRoute knows.
+const numListRoutes = 9
+
 func mix(seed, n int) int {
 	x := uint64(seed)*0x9E3779B97F4A7C15 + uint64(n)*0xBF58476D1CE4E5B9
 	x ^= x >> 31
@@ -594,7 +597,7 @@ func buildVariant(v V, seed int, counter *int) any {
 		}
 		route := 0
 		if seed != 0 {
-			route = mix(seed, id) % 8
+			route = mix(seed, id) % numListRoutes
 		}
 		return listByRoute(v, elems, route, mix(seed, id+7))
 	case KObject:
@@ -703,6 +706,23 @@ func listByRoute(v V, elems []any, route, salt int) at.List {
 			}
 			return l
 		}
+	case 8:
+		// typed-slice origin holding a placeholder at every position, the other kinds stored with Replace
+		if n > 0 {
+			ints := make([]int, n)
+			for i, e := range v.L {
+				if e.K == KInt {
+					ints[i] = int(e.I)
+				}
+			}
+			l := at.NewListFrom(ints)
+			for i, e := range v.L {
+				if e.K != KInt {
+					l.Replace(i, elems[i])
+				}
+			}
+			return l
+		}
 	case 7:
 		// grow one by one past the content, then shrink back (spare capacity), with a Delete in the middle
 		l := at.NewList()
@@ -723,4 +743,67 @@ func listByRoute(v V, elems []any, route, salt int) at.List {
 		l.Add(e)
 	}
 	return l
+}
+
+// BuildSharing builds the container for v storing ONE instance wherever two non-empty container
+// subtrees have identical content (a DAG: the same List/Object reachable at several places).
+func BuildSharing(v V) any {
+	memo := map[string]any{}
+	var rec func(v V) any
+	rec = func(v V) any {
+		switch v.K {
+		case KList:
+			key := ""
+			if len(v.L) > 0 {
+				key = "L" + RenderJSON(sortedV(v))
+				if x, ok := memo[key]; ok {
+					return x
+				}
+			}
+			l := at.NewList()
+			for _, e := range v.L {
+				l.Add(rec(e))
+			}
+			if key != "" {
+				memo[key] = l
+			}
+			return l
+		case KObject:
+			key := ""
+			if len(v.O) > 0 {
+				key = "O" + RenderJSON(sortedV(v))
+				if x, ok := memo[key]; ok {
+					return x
+				}
+			}
+			o := at.NewObject()
+			for _, p := range v.O {
+				o.Set(p.K, rec(p.V))
+			}
+			if key != "" {
+				memo[key] = o
+			}
+			return o
+		}
+		return Build(v)
+	}
+	return rec(v)
+}
+
+func sortedV(v V) V {
+	out := v
+	switch v.K {
+	case KList:
+		out.L = make([]V, len(v.L))
+		for i, e := range v.L {
+			out.L[i] = sortedV(e)
+		}
+	case KObject:
+		out.O = make([]Pair, len(v.O))
+		for i, p := range v.O {
+			out.O[i] = Pair{p.K, sortedV(p.V)}
+		}
+		sort.Slice(out.O, func(i, j int) bool { return out.O[i].K < out.O[j].K })
+	}
+	return out
 }
